@@ -237,3 +237,14 @@ func degenerateKeys() []crypto.PublicKey {
 		ed25519.PublicKey(nil), ed25519.PublicKey{1, 2}, "not a key", 7,
 	}
 }
+
+// rawSignDER: the same ECDSA signature in ASN.1 DER form (what crypto/ecdsa.SignASN1 and most HSMs return; not the COSE form).
+func rawSignDER(k *fixtures.Key, alg string, prot, payload []byte) []byte {
+	_, h := algHash(alg)
+	h.Write(sigStructure(prot, payload))
+	sig, err := ecdsa.SignASN1(rand.Reader, k.Priv.(*ecdsa.PrivateKey), h.Sum(nil))
+	if err != nil {
+		panic(err)
+	}
+	return sig
+}
